@@ -187,9 +187,9 @@ def ref_ok(prop, r):
             return bool(h) and not c and not find(evs, "A:")
         if auth == "401":
             return not h and final_of(evs).startswith("S:401")
-        if auth.startswith("ran("):
-            tag = auth[4:-1]
-            return bool(h) and c == ["C:" + tag.encode().hex()]
+        if auth.startswith("ran{"):
+            tags = auth[4:-1].split(",")
+            return bool(h) and len(c) == 1 and c[0][2:] in tags
         return False
     if prop == "C17":
         if route.startswith("cors("):
@@ -199,7 +199,8 @@ def ref_ok(prop, r):
             m = re.match(r"CORS\(([^;]*);([^)]*)\)", ce[0])
             rm = re.match(r"cors\(([^;]*);([^)]*)\)", route)
             hs = m.group(2).split(",") if m.group(2) else []
-            return m.group(1) == rm.group(1) and ",".join(sorted(hs)) == rm.group(2) and len(set(hs)) == len(hs)
+            return (m.group(1) == rm.group(1) and ",".join(sorted(hs)) == rm.group(2) and len(set(hs)) == len(hs)
+                    and len(ce) == 1 and len(find(evs, "CORSH(")) == 1 and final_of(evs).startswith("S:204"))
         return not find(evs, "CORS")
     if prop == "C13":
         return (rc == "spec") == (route == "spec")
